@@ -8,7 +8,7 @@ from sa.astx import NotConst, call_attr, call_name, const_eval, dotted, lincmp, 
 from sa.selftest import Mutant, Silent
 from sa.source import AnalysisError, class_assigns
 from sa.props._lib_j import (all_paths, asserted_eq, asserted_in, bind_args, catching_handler, clone, edge_asserts,
-    handler_names, leaf_values, names_loaded, body_always_entered, dep, normalise, run_sections, node_calls, normal_exits, params, resolve, rsrc, taint)
+    handler_names, leaf_values, names_loaded, MiniStop, mini_call, body_always_entered, dep, normalise, run_sections, node_calls, normal_exits, params, resolve, rsrc, taint)
 
 PROPERTY = "C48"
 CRED = "cred/credentials.py"
@@ -32,7 +32,10 @@ EXPLANATION = (
     "must be the floor of the clock and the accepted (issue, verify) instants must equal int(t') - int(t) <= LIFETIME (real age of an accepted challenge < LIFETIME + 1 s). "
     "The values stored in the field dict are the regex groups of the response verbatim (only `or` between groups and .strip()): provenance rule, no rewriting between parse and hash. "
     "Also decided: no anchor on the decode->guards path (nor the clock, nonce and opaque generators) carries a decorator, second definition or rebinding that could answer a call without executing the body (memoisation of a verdict that depends on the clock); the pure _digest helpers may be cached. "
-    "Methods: all clauses are decided structurally (for every input / path) except three evaluated ones: separator-vs-alphabet and client-address agreement are finite-exhaustive (whole codec alphabet; one address per class the code distinguishes, side condition checked - else the rule is reported as bounded '...-sampled'); the clock grid (lifetime/issue-time-is-floor-of-clock, lifetime/accepted-instants-equal-spec) is bounded evidence layered under the structural deciders verify/guard-lifetime (normalised boundary) and lifetime/stamp-conversion-is-floor / verifier-clock-is-floor (floor of the bare clock call). "
+    "Methods: all clauses are decided structurally (for every input / path) except the evaluated ones: the RFC 2617 hash inputs have a structural CFG-path rule that applies when the "
+    "hashing is written as straight-line update() calls and abstains (noted) otherwise, plus rfc2617/evaluated-digests, which interprets calcHA1/calcHA2/calcResponse with a recording "
+    "hash object on one value per class of arguments they can distinguish (finite-exhaustive under the side condition, checked on the code, that arguments are only compared with "
+    "constants / None / by truthiness; else reported as bounded '...-sampled'); separator-vs-alphabet and client-address agreement are finite-exhaustive (whole codec alphabet; one address per class the code distinguishes, side condition checked - else the rule is reported as bounded '...-sampled'); the clock grid (lifetime/issue-time-is-floor-of-clock, lifetime/accepted-instants-equal-spec) is bounded evidence layered under the structural deciders verify/guard-lifetime (normalised boundary) and lifetime/stamp-conversion-is-floor / verifier-clock-is-floor (floor of the bare clock call). "
 )
 RULE_KINDS = {
     "*": "structural",                                            # CFG dominance / must-pass, exception-escape with handler families, provenance of arguments,
@@ -40,6 +43,8 @@ RULE_KINDS = {
     "agreement/separator-outside-alphabet": "finite-exhaustive",  # the separator against EVERY byte the codec + hexlify can emit (frozen codec alphabets)
     "agreement/client-address-normalisation": "finite-exhaustive",  # one value per class the code can distinguish (side condition checked on the code)
     "agreement/client-address-normalisation-sampled": "bounded",  # same comparison when the side condition does not hold
+    "rfc2617/evaluated-digests": "finite-exhaustive",             # interpreted on one value per class the functions can distinguish (side condition checked)
+    "rfc2617/evaluated-digests-sampled": "bounded",
     "lifetime/issue-time-is-floor-of-clock": "bounded",           # second layer under lifetime/stamp-conversion-is-floor
     "lifetime/accepted-instants-equal-spec": "bounded",           # second layer under verify/guard-lifetime + lifetime/*-is-floor
 }
@@ -189,8 +194,12 @@ def _escape_rules(ctx, rel, qual, q, seeds, count):
     # (1) explicit raises
     for n in walk_local(f):
         if isinstance(n, ast.Raise):
-            ok = n.exc is not None and (dotted(n.exc.func if isinstance(n.exc, ast.Call) else n.exc) or "").split(".")[-1] == "LoginFailed"
-            ctx.check(ok, "escape/raises-only-LoginFailed", ctx.construct(q, n),
+            # what is raised, through every definition of a local that carries it (`failure = error.LoginFailed(...); raise failure`)
+            def is_lf(v):
+                return (dotted(v.func if isinstance(v, ast.Call) else v) or "").split(".")[-1] == "LoginFailed"
+            ok = n.exc is not None and all(is_lf(v) for v, _, _ in leaf_values(f, n.exc))
+            label = n if (n.exc is None or not isinstance(n.exc, ast.Name)) else "raise <local bound to an exception>"
+            ctx.check(ok, "escape/raises-only-LoginFailed", ctx.construct(q, label),
                       "a rejection path raises something other than error.LoginFailed")
             count["raise"] += 1
     # (2) raising library calls on client data
@@ -581,7 +590,7 @@ def _s_decode(ctx, S):
         if ok:
             a0 = field_of(Rd(v.args[0]))
             ok = bool(a0) and a0[1] == "username" and src(v.args[1]) == pd[2] and src(v.args[2]) == "self.authenticationRealm" \
-                and (authdict is None or src(v.args[3]) == authdict)
+                and (authdict is None or src(v.args[3]) == authdict or src(Rd(v.args[3])) == authdict)
         ctx.check(ok, "decode/credential-args", where,
                   "DigestedCredentials is not built from (verified username, request method, realm, the verified field dict)")
 
@@ -738,6 +747,12 @@ def _s_rfc2617(ctx, S):
             return [src(e)]
         return None
 
+    def straight(fname):
+        """the structural reading below enumerates CFG paths and the update() calls on them; it understands a function only if the hashing is written as
+        straight-line update() calls under if-statements: no loop, nested function, generator or comprehension feeds the hash"""
+        return not any(isinstance(x, (ast.For, ast.While, ast.FunctionDef, ast.Lambda, ast.Yield, ast.YieldFrom, ast.ListComp, ast.GeneratorExp))
+                       for x in walk_local(callees[fname]) if x is not callees[fname])
+
     def sequences(fname):
         f = callees[fname]
         g = ctx.cfg(f)
@@ -762,24 +777,111 @@ def _s_rfc2617(ctx, S):
     C = repr(b":")
     want_resp = {("<new>", "HA1", C, "pszNonce", C, "pszNonceCount", C, "pszCNonce", C, "pszQop", C, "HA2"),
                  ("<new>", "HA1", C, "pszNonce", C, "HA2")}
-    got = sequences("calcResponse")
-    ctx.check(got == want_resp, "rfc2617/response-sequence", "twisted.cred._digest.calcResponse",
-              f"request-digest is not H(HA1:nonce:[nc:cnonce:qop:]HA2): paths hash {sorted(got)}")
-    got = sequences("calcHA2")
-    want2 = {("<new>", "pszMethod", C, "pszDigestUri"), ("<new>", "pszMethod", C, "pszDigestUri", C, "pszHEntity")}
-    ctx.check(got == want2, "rfc2617/A2-sequence", "twisted.cred._digest.calcHA2", f"A2 is not method:uri[:H(entity)]: paths hash {sorted(got)}")
-    got = sequences("calcHA1")
-    base = ("<new>", "pszUserName", C, "pszRealm", C, "pszPassword")
-    sess = ("<new>", "HA1", C, "pszNonce", C, "pszCNonce")
-    want1 = {base, base + sess, sess, ()}
-    ctx.check(got <= want1 and base in got and base + sess in got, "rfc2617/A1-sequence", "twisted.cred._digest.calcHA1",
-              f"A1 is not user:realm:password [then H(A1):nonce:cnonce for md5-sess]: paths hash {sorted(got)}")
-    # guards of the optional parts
-    gr = ctx.cfg(callees["calcResponse"])
-    for nid, uc in node_calls(gr, lambda c: call_attr(c) == "update" and c.args and src(c.args[0]) in ("pszNonceCount", "pszCNonce", "pszQop")):
-        gs = {src(t) for t, lab in edge_asserts(gr, nid) if lab == "T"}
-        ctx.check({"pszNonceCount", "pszCNonce"} <= gs, "rfc2617/qop-part-guard", ctx.construct("twisted.cred._digest.calcResponse", uc),
-                  "the nc:cnonce:qop part is hashed without both nc and cnonce being present")
+    def abstain(fname, rule):
+        ctx.note(f"{rule}: {fname} feeds its hash through a loop / generator / nested function, shape not read structurally; clause decided by rfc2617/evaluated-digests")
+    if straight("calcResponse"):
+        got = sequences("calcResponse")
+        ctx.check(got == want_resp, "rfc2617/response-sequence", "twisted.cred._digest.calcResponse",
+                  f"request-digest is not H(HA1:nonce:[nc:cnonce:qop:]HA2): paths hash {sorted(got)}")
+        # guards of the optional parts
+        gr = ctx.cfg(callees["calcResponse"])
+        for nid, uc in node_calls(gr, lambda c: call_attr(c) == "update" and c.args and src(c.args[0]) in ("pszNonceCount", "pszCNonce", "pszQop")):
+            gs = {src(t) for t, lab in edge_asserts(gr, nid) if lab == "T"}
+            ctx.check({"pszNonceCount", "pszCNonce"} <= gs, "rfc2617/qop-part-guard", ctx.construct("twisted.cred._digest.calcResponse", uc),
+                      "the nc:cnonce:qop part is hashed without both nc and cnonce being present")
+    else:
+        abstain("calcResponse", "rfc2617/response-sequence")
+    if straight("calcHA2"):
+        got = sequences("calcHA2")
+        want2 = {("<new>", "pszMethod", C, "pszDigestUri"), ("<new>", "pszMethod", C, "pszDigestUri", C, "pszHEntity")}
+        ctx.check(got == want2, "rfc2617/A2-sequence", "twisted.cred._digest.calcHA2", f"A2 is not method:uri[:H(entity)]: paths hash {sorted(got)}")
+    else:
+        abstain("calcHA2", "rfc2617/A2-sequence")
+    if straight("calcHA1"):
+        got = sequences("calcHA1")
+        base = ("<new>", "pszUserName", C, "pszRealm", C, "pszPassword")
+        sess = ("<new>", "HA1", C, "pszNonce", C, "pszCNonce")
+        want1 = {base, base + sess, sess, ()}
+        ctx.check(got <= want1 and base in got and base + sess in got, "rfc2617/A1-sequence", "twisted.cred._digest.calcHA1",
+                  f"A1 is not user:realm:password [then H(A1):nonce:cnonce for md5-sess]: paths hash {sorted(got)}")
+    else:
+        abstain("calcHA1", "rfc2617/A1-sequence")
+
+    # ---- evaluated layer: the three functions are interpreted (checker's own interpreter, recording hash object) on one representative of every class of
+    #      argument values they can distinguish, and the bytes fed to the hash are compared with RFC 2617.  Side condition for exhaustiveness, checked on the
+    #      code: every test in the function compares parameters only with constants / None / by truthiness; everything else is passed to update() untouched.
+    class _Rec:
+        _mini_symbolic = True
+
+        def __init__(self):
+            self.fed = b""
+
+        def update(self, x):
+            if not isinstance(x, bytes):
+                raise TypeError("update() needs bytes")
+            self.fed += x
+
+        def digest(self):
+            return b"H(" + self.fed + b")"
+
+        def hexdigest(self):
+            return (b"H(" + self.fed + b")").decode()
+
+    class _Algos(dict):
+        def __missing__(self, k):
+            raise KeyError(k)
+    algos = _Algos({k: _Rec for k in (b"md5", b"md5-sess", b"sha")})
+    bi = {"algorithms": algos, "hexlify": (lambda b: b), "md5": _Rec, "sha1": _Rec, "TypeError": TypeError}
+
+    def class_tests_only(fn):
+        ps_ = set(params(fn))
+        for t in [x.test for x in ast.walk(fn) if isinstance(x, (ast.If, ast.IfExp, ast.While))]:
+            for c in (ast.walk(t)):
+                if isinstance(c, ast.Compare):
+                    ok_ = len(c.ops) == 1 and isinstance(c.ops[0], (ast.Eq, ast.NotEq, ast.Is, ast.IsNot)) and \
+                        all(isinstance(x, (ast.Name, ast.Constant)) for x in [c.left] + c.comparators)
+                    if not ok_:
+                        return False
+                elif isinstance(c, (ast.Call, ast.Subscript, ast.Attribute)) and any(isinstance(x, ast.Name) and x.id in ps_ for x in ast.walk(c)):
+                    return False
+        return True
+    complete = all(class_tests_only(callees[n]) for n in callees)
+    rname = "rfc2617/evaluated-digests" if complete else "rfc2617/evaluated-digests-sampled"
+    why = ("finite-exhaustive: the functions look at their arguments only by truthiness / `is None` / equality with constants and otherwise hand them to update() untouched; one value "
+           "per class of (algorithm, qop, nc, cnonce, preHA1) is every case they can distinguish") if complete else "bounded: sampled argument combinations"
+    T = lambda name: b"<" + name.encode() + b">"
+    bad = None
+    try:
+        for nc in (None, b"", T("nc")):
+            for cn in (None, b"", T("cnonce")):
+                for alg in (b"md5", b"md5-sess", b"sha"):
+                    got = mini_call(callees["calcResponse"], dict(zip(params(callees["calcResponse"]), [T("HA1"), T("HA2"), alg, T("nonce"), nc, cn, T("qop")])), builtins=bi)
+                    want = b"H(" + T("HA1") + b":" + T("nonce") + b":" + ((nc + b":" + cn + b":" + T("qop") + b":") if (nc and cn) else b"") + T("HA2") + b")"
+                    if got != want and bad is None:
+                        bad = ("calcResponse", f"nc={nc!r} cnonce={cn!r}", got, want)
+        for qop in (b"auth", b"auth-int", b"", None):
+            got = mini_call(callees["calcHA2"], dict(zip(params(callees["calcHA2"]), [b"md5", T("method"), T("uri"), qop, T("hentity")])), builtins=bi)
+            want = b"H(" + T("method") + b":" + T("uri") + ((b":" + T("hentity")) if qop == b"auth-int" else b"") + b")"
+            if got != want and bad is None:
+                bad = ("calcHA2", f"qop={qop!r}", got, want)
+        p1 = params(callees["calcHA1"])
+        for alg in (b"md5", b"md5-sess", b"sha"):
+            for pre in (None, T("preHA1")):
+                args = [alg] + ([T("user"), T("realm"), T("password")] if pre is None else [None, None, None]) + [T("nonce"), T("cnonce")]
+                kw = dict(zip(p1, args))
+                kw[p1[6]] = pre
+                got = mini_call(callees["calcHA1"], kw, builtins=bi)
+                a1 = (b"H(" + T("user") + b":" + T("realm") + b":" + T("password") + b")") if pre is None else pre
+                want = (b"H(" + a1 + b":" + T("nonce") + b":" + T("cnonce") + b")") if alg == b"md5-sess" else a1
+                if got != want and bad is None:
+                    bad = ("calcHA1", f"algorithm={alg!r} preHA1={pre!r}", got, want)
+    except MiniStop as e:
+        raise AnalysisError(f"_digest functions not evaluable: {e}")
+    except Exception as e:  # noqa: BLE001 - an exception escaping the interpreted function on well-formed arguments is itself a finding
+        bad = bad or ("_digest", "well-formed arguments", f"raises {type(e).__name__}: {e}", "a digest")
+    ctx.check(bad is None, rname, "twisted.cred._digest." + (bad[0] if bad else "calcHA1/calcHA2/calcResponse"),
+              f"for {bad and bad[1]} the hash is fed {bad and bad[2]!r}, RFC 2617 requires {bad and bad[3]!r}: a response computed by a conforming client with the right password is "
+              f"refused (or responses for different parameters collide)", detail=why)
 
 
 
@@ -1127,4 +1229,9 @@ SILENT = [
            "    def _agrees(self, ha1, algo, uri, qop, nonce, nc, cnonce, response):\n        ha2 = calcHA2(algo, self.method, uri, qop, None)\n        wanted = calcResponse(ha1, ha2, algo, nonce, nc, cnonce, qop)\n        return wanted == response\n\n    def checkHash"),
     Silent("digest-updates-through-feed-helper", DIGEST, "    m = algorithms[algo]()\n    m.update(pszMethod)\n    m.update(b\":\")\n    m.update(pszDigestUri)\n", "    m = algorithms[algo]()\n    _absorb(m, pszMethod, b\":\", pszDigestUri)\n",
            more=[(DIGEST, "def calcHA2(algo, pszMethod, pszDigestUri, pszQop, pszHEntity):", "def _absorb(h, *pieces):\n    for piece in pieces:\n        h.update(piece)\n\n\ndef calcHA2(algo, pszMethod, pszDigestUri, pszQop, pszHEntity):")]),
+    Silent("rejections-built-by-module-helper", _V, "        if \"opaque\" not in auth:\n            raise error.LoginFailed(\"Invalid response, no opaque given.\")\n\n        if \"nonce\" not in auth:\n            raise error.LoginFailed(\"Invalid response, no nonce given.\")\n",
+           "        for needed in (\"opaque\", \"nonce\"):\n            if needed not in auth:\n                failure = _refusal(\"no %s given.\" % (needed,))\n                raise failure\n",
+           more=[(_V, "class DigestCredentialFactory:\n", "def _refusal(what):\n    return error.LoginFailed(\"Invalid response, \" + what)\n\n\nclass DigestCredentialFactory:\n")]),
+    Silent("digest-fields-from-a-generator", DIGEST, "    m = algorithms[algo]()\n    m.update(pszMethod)\n    m.update(b\":\")\n    m.update(pszDigestUri)\n    if pszQop == b\"auth-int\":\n        m.update(b\":\")\n        m.update(pszHEntity)\n    return hexlify(m.digest())",
+           "    def parts():\n        yield pszMethod\n        yield pszDigestUri\n        if pszQop == b\"auth-int\":\n            yield pszHEntity\n\n    m = algorithms[algo]()\n    first = True\n    for part in parts():\n        if not first:\n            m.update(b\":\")\n        m.update(part)\n        first = False\n    return hexlify(m.digest())"),
 ]
